@@ -152,7 +152,22 @@ func main() {
 		}()
 		st := runStats{Packages: len(ctx.SSAPkgs), Functions: len(ctx.Funcs), CGEdges: ctx.cgEdges, Tier: *tier, Seed: seed,
 			WallS: loadS + time.Since(t0).Seconds()}
-		if c := r.finish(evDir, known, st, nil); c > rc {
+		var extra map[string]interface{}
+		if *tier == "thorough" && !*noEvidence {
+			res := runSelfTest(p, *repo, *verif)
+			killed := 0
+			for _, m := range res {
+				if m.Status == "killed" {
+					killed++
+				} else {
+					fmt.Printf("SELFTEST-WARNING property=%s mutant=%s status=%s %s\n", p, m.Name, m.Status, m.Detail)
+				}
+			}
+			fmt.Printf("selftest property=%s mutants=%d killed=%d\n", p, len(res), killed)
+			extra = map[string]interface{}{"mutants_total": len(res), "mutants_killed": killed, "mutants": res}
+			st.WallS = loadS + time.Since(t0).Seconds()
+		}
+		if c := r.finish(evDir, known, st, extra); c > rc {
 			rc = c
 		}
 	}
